@@ -336,6 +336,43 @@ theorem get_rename_src {a b : Path} {fs fs' : Fs} (h : rename a b fs = .ok fs') 
           rw [get_map_reroot hpre.1 hpre.2 hfree']
           simp [hpre.2, isPre_refl]
 
+theorem rename_src_isSome {a b : Path} {fs fs' : Fs} (h : rename a b fs = .ok fs') : (get fs a).isSome = true := by
+  simp only [rename] at h
+  split at h
+  · cases h
+  · split at h
+    · cases h
+    · split at h
+      · cases h
+      · next c hc => simp [hc]
+      · next hd => simp [hd]
+
+theorem rename_dst_isSome {a b : Path} {fs fs' : Fs} (h : rename a b fs = .ok fs') : (get fs' b).isSome = true := by
+  have hsrc := rename_src_isSome h
+  obtain ⟨_, hdir, hfile⟩ := get_rename h b
+  cases ha : get fs a with
+  | none => simp [ha] at hsrc
+  | some n =>
+    cases n with
+    | dir => have := hdir ha []; simp only [List.append_nil] at this; rw [this, ha]; rfl
+    | file c => rw [hfile c ha]; rfl
+
+/-- renaming a file touches exactly the two paths -/
+theorem get_rename_file {a b : Path} {fs fs' : Fs} {c : Bytes} (h : rename a b fs = .ok fs')
+    (ha : get fs a = some (.file c)) (q : Path) :
+    get fs' q = if b = q then some (.file c) else if q = a then none else get fs q := by
+  simp only [rename] at h
+  split at h
+  · cases h
+  · split at h
+    · cases h
+    · rw [ha] at h
+      simp only at h
+      split at h
+      · cases h
+      · cases h
+        simp [get_set, get_erase]
+
 /-! ### runs -/
 
 theorem run_nil (fs : Fs) : run [] fs = fs := rfl
@@ -369,5 +406,34 @@ theorem run_append (xs ys : List Prim) (fs : Fs) :
     | ok fs' =>
       simp only [List.cons_append, run_cons_ok hp]
       exact ih fs'
+
+/-- run the steps, `none` if one of them fails -/
+def runAll : List Prim → Fs → Option Fs
+  | [], fs => some fs
+  | p :: ps, fs =>
+    match p.apply fs with
+    | .ok fs' => runAll ps fs'
+    | .error _ => none
+
+theorem run_of_runAll {xs : List Prim} {fs fs' : Fs} (h : runAll xs fs = some fs') : run xs fs = fs' := by
+  induction xs generalizing fs with
+  | nil => simp only [runAll] at h; cases h; rfl
+  | cons p ps ih =>
+    simp only [runAll] at h
+    cases hp : p.apply fs with
+    | error e => simp [hp] at h
+    | ok s => simp only [hp] at h; rw [run_cons_ok hp]; exact ih h
+
+/-- a run of `xs ++ ys` continues with `ys` exactly when every step of `xs` succeeds -/
+theorem run_append' (xs ys : List Prim) (fs : Fs) :
+    run (xs ++ ys) fs = match runAll xs fs with
+      | some fs' => run ys fs'
+      | none => run xs fs := by
+  induction xs generalizing fs with
+  | nil => rfl
+  | cons p ps ih =>
+    cases hp : p.apply fs with
+    | error e => simp [run, runAll, hp]
+    | ok s => simp only [List.cons_append, run_cons_ok hp, runAll, hp]; exact ih s
 
 end Octo.Fs
